@@ -115,3 +115,71 @@ func ZZ_C13_ensure_rule() {
 	changed, err2 := EnsureIPRule(context.Background(), exp)
 	zz.Assert(err2 == nil && !changed && len(k.rules) == before, "ensuring again changes nothing")
 }
+
+// C13 (idempotent ensure-style application), routes: after EnsureRoute the
+// kernel holds exactly one route for the destination in the wanted table and
+// it is the wanted one (device, gateway, scope) - whatever was there before:
+// nothing, the same route, or a route for the same destination through
+// another device (left behind by a previous pod).  `ip route replace`
+// semantics are modelled: a route with the same destination and table is
+// replaced.
+// zz:noreplay the kernel's route table is replaced through engine-side overrides
+func ZZ_C13_ensure_route() {
+	dst := &net.IPNet{IP: net.IP{10, 0, 0, 5}, Mask: net.CIDRMask(32, 32)}
+	otherDst := &net.IPNet{IP: net.IP{10, 0, 0, 6}, Mask: net.CIDRMask(32, 32)}
+	wantLink := zz.IntRange("wanted.link", 2, 9)
+	table := []int{0, 1005}[zz.Fork("table", 2)]
+	var kernel []netlink.Route
+	kernel = append(kernel, netlink.Route{Dst: otherDst, LinkIndex: 3, Scope: netlink.SCOPE_LINK, Table: table})
+	switch zz.Fork("before", 3) {
+	case 1:
+		kernel = append(kernel, netlink.Route{Dst: dst, LinkIndex: wantLink, Scope: netlink.SCOPE_LINK, Table: table})
+	case 2:
+		stale := zz.IntRange("stale.link", 2, 9)
+		zz.Assume(stale != wantLink)
+		kernel = append(kernel, netlink.Route{Dst: dst, LinkIndex: stale, Scope: netlink.SCOPE_LINK, Table: table})
+	}
+	zz.Override("github.com/vishvananda/netlink.RouteListFiltered", func(family int, filter *netlink.Route, mask uint64) ([]netlink.Route, error) {
+		var out []netlink.Route
+		for _, r := range kernel {
+			switch {
+			case mask&netlink.RT_FILTER_DST != 0 && !zzSameNet(r.Dst, filter.Dst):
+			case mask&netlink.RT_FILTER_OIF != 0 && r.LinkIndex != filter.LinkIndex:
+			case mask&netlink.RT_FILTER_SCOPE != 0 && r.Scope != filter.Scope:
+			case mask&netlink.RT_FILTER_TABLE != 0 && r.Table != filter.Table:
+			case mask&netlink.RT_FILTER_TABLE == 0 && r.Table != 0: // without a table filter only the main table is listed
+			case mask&netlink.RT_FILTER_GW != 0 && !r.Gw.Equal(filter.Gw):
+			default:
+				out = append(out, r)
+			}
+		}
+		return out, nil
+	})
+	zz.Override("github.com/vishvananda/netlink.RouteReplace", func(r *netlink.Route) error {
+		var keep []netlink.Route
+		for _, x := range kernel {
+			if !(zzSameNet(x.Dst, r.Dst) && x.Table == r.Table) {
+				keep = append(keep, x)
+			}
+		}
+		kernel = append(keep, *r)
+		return nil
+	})
+	exp := &netlink.Route{Dst: dst, LinkIndex: wantLink, Scope: netlink.SCOPE_LINK, Table: table}
+	_, err := EnsureRoute(context.Background(), exp)
+	zz.Assert(err == nil, "ensuring the route succeeds")
+	n, nOther := 0, 0
+	for _, r := range kernel {
+		if zzSameNet(r.Dst, dst) && r.Table == table {
+			n++
+			zz.Assert(r.LinkIndex == wantLink && r.Scope == netlink.SCOPE_LINK, "the route for the pod address goes through the wanted device afterwards (a left-over through another device is replaced)")
+		}
+		if zzSameNet(r.Dst, otherDst) {
+			nOther++
+			zz.Assert(r.LinkIndex == 3, "the route of another address is untouched")
+		}
+	}
+	zz.Assert(n == 1 && nOther == 1, "exactly one route for the destination; other routes stay")
+	changed, err2 := EnsureRoute(context.Background(), exp)
+	zz.Assert(err2 == nil && !changed, "ensuring again changes nothing")
+}
